@@ -1185,7 +1185,10 @@ class MinLeakageIASolver(IterativeIASolverBaseClass):
         for k in range(self.K):
             Qk = self.calc_Q(k)
             [V, _] = leig(Qk, self.Ns[k])
-            Uk[k] = V
+            # `V` has Ns[k] orthonormal columns. As with the precoders, the
+            # receive filter must have a Frobenius norm equal to one (this
+            # is what calc_Q_rev assumes when scaling it with the power).
+            Uk[k] = V / np.linalg.norm(V, 'fro')
         return Uk
 
     def _calc_Uk_all_k_rev(self) -> np.ndarray:
@@ -1202,7 +1205,9 @@ class MinLeakageIASolver(IterativeIASolverBaseClass):
         for k in range(self.K):
             Qk_rev = self.calc_Q_rev(k)
             [V, _] = leig(Qk_rev, self.Ns[k])
-            Uk_rev[k] = V
+            # `V` has Ns[k] orthonormal columns, but the precoder must have
+            # a Frobenius norm equal to one (full_F applies the power).
+            Uk_rev[k] = V / np.linalg.norm(V, 'fro')
         return Uk_rev
 
     def _updateF(self) -> None:
